@@ -166,7 +166,8 @@ def run(res, rng, tier, known):
         rec.uninstall()
     replay_decisions(res, rec.calls, res.prop, "round_tt")
     from checks.sweeps import sweep_cases
-    run_cases(res, sweep_cases(rng, tier, "lr_orthogonal") + sweep_cases(rng, tier, "round_tt"), known)
+    run_cases(res, sweep_cases(rng, tier, "lr_orthogonal") + sweep_cases(rng, tier, "round_tt")
+              + sweep_cases(rng, tier, "lr_orthogonal_ttm") + sweep_cases(rng, tier, "round_ttm"), known)
     res.extra["svd_contract_calls_bad"] = len(rec.svd_bad)
     if rec.svd_bad:
         res.notes.append("SVD contract breaches (assumption): %s" % rec.svd_bad[:3])
